@@ -611,6 +611,24 @@ theorem step_good3 (s : St) (h : Good3 s) (op : Op) (hv : validOp op) : Good3 (s
       · exact hclear.sb
     · exact hclear.sb
   | advance d => exact sbok_congr hclear.sb rfl rfl
+  | dispatch n =>
+    show SBok (dispatch (clearOut s) n)
+    unfold dispatch
+    repeat' split
+    all_goals first | exact hclear.sb | exact sbok_congr hclear.sb rfl rfl
+  | runcb =>
+    show SBok (runCallback (clearOut s))
+    rw [runCallback_eq]
+    split
+    · exact hclear.sb
+    · next n d rest _ =>
+      have h1 : Good3 { clearOut s with pending := rest } :=
+        ⟨good2_congr hclear.g2 rfl rfl rfl rfl, sbok_congr hclear.sb rfl rfl⟩
+      split
+      · exact h1.sb
+      · split
+        · exact timerFire_sb _ h1 n
+        · exact h1.sb
 
 theorem reach_good3 {s : St} (h : Reach s) : Good3 s := by
   induction h with
